@@ -532,6 +532,22 @@ func batchCore(c BatchCase, cc *kit.Case) (string, string) {
 			return fail("replay/batch/close", "the replay ended with nil but batch collector %d was closed %d times (want exactly once); %d batches were collected after Close", i, closed, afterClose)
 		}
 	}
+	return batchCmp{recTime: c.RecTime, zero: strconv.FormatInt(c.Zero, 10), hasEmpty: hasEmpty, hasInt: hasInt, show: show, label: label}.compare(ref, got)
+}
+
+// batchCmp is the comparison of the delivered batches with the recorded ones, shared by the units
+// Batch (readers fed directly) and File (recording files made and replayed by services/replay).
+// ref[i] / got[i]: the batches recorded for / delivered to the i-th query node ("file" i of the archive).
+type batchCmp struct {
+	recTime          bool
+	zero             string // zero time of the replay clock, for messages only
+	hasEmpty, hasInt bool
+	show             func(i int) string
+	label            func(string)
+}
+
+func (bc batchCmp) compare(ref, got [][]kit.Bt) (string, string) {
+	hasEmpty, hasInt, show, label := bc.hasEmpty, bc.hasInt, bc.show, bc.label
 	type delta struct {
 		file, batch, point int // point -1: tmax
 		d                  int64
@@ -593,7 +609,7 @@ func batchCore(c BatchCase, cc *kit.Case) (string, string) {
 		}
 	}
 	// ---- times
-	if c.RecTime {
+	if bc.recTime {
 		for _, d := range deltas {
 			if d.d != 0 {
 				what := fmt.Sprintf("point %d", d.point)
@@ -617,7 +633,7 @@ func batchCore(c BatchCase, cc *kit.Case) (string, string) {
 			continue
 		}
 		if d.d != fs {
-			return fail("replay/batch/time-shift", "replay relative to the clock (zero %d): the first point of file %d was shifted by %d ns, batch %d point %d by %d ns\nrecorded %s\ndelivered %s", c.Zero, d.file, fs, d.batch, d.point, d.d, fmtBt(ref[d.file][d.batch]), fmtBt(got[d.file][d.batch]))
+			return fail("replay/batch/time-shift", "replay relative to the clock (zero %s): the first point of file %d was shifted by %d ns, batch %d point %d by %d ns\nrecorded %s\ndelivered %s", bc.zero, d.file, fs, d.batch, d.point, d.d, fmtBt(ref[d.file][d.batch]), fmtBt(got[d.file][d.batch]))
 		}
 	}
 	for _, d := range deltas {
@@ -633,7 +649,7 @@ func batchCore(c BatchCase, cc *kit.Case) (string, string) {
 	sort.Ints(files)
 	for k, f := range files {
 		if k > 0 && fileShift[f] != fileShift[files[0]] {
-			return fail("replay/batch/per-file-shift", "replay relative to the clock (zero %d): the points of file %d were shifted by %d ns, those of file %d by %d ns (the first points were recorded at %d and %d)", c.Zero,
+			return fail("replay/batch/per-file-shift", "replay relative to the clock (zero %s): the points of file %d were shifted by %d ns, those of file %d by %d ns (the first points were recorded at %d and %d)", bc.zero,
 				files[0], fileShift[files[0]], f, fileShift[f], firstTime(ref[files[0]]), firstTime(ref[f]))
 		}
 	}
@@ -643,7 +659,7 @@ func batchCore(c BatchCase, cc *kit.Case) (string, string) {
 		}
 		fs := fileShift[d.file]
 		if d.d != fs {
-			return fail("replay/batch/tmax-not-shifted", "replay relative to the clock (zero %d): the points of file %d were shifted by %d ns but tmax of batch %d by %d ns\nrecorded %s\ndelivered %s", c.Zero, d.file, fs, d.batch, d.d, fmtBt(ref[d.file][d.batch]), fmtBt(got[d.file][d.batch]))
+			return fail("replay/batch/tmax-not-shifted", "replay relative to the clock (zero %s): the points of file %d were shifted by %d ns but tmax of batch %d by %d ns\nrecorded %s\ndelivered %s", bc.zero, d.file, fs, d.batch, d.d, fmtBt(ref[d.file][d.batch]), fmtBt(got[d.file][d.batch]))
 		}
 	}
 	return "", ""
@@ -665,7 +681,7 @@ var batchAssumptions = []string{
 	"nil and empty tag sets are the same tag set; batch group id, dimensions and byName flag are compared exactly",
 	"timestamps lie in [-2e18, 3e18] ns and the clock zero in [0, 2e18]",
 	"the replay clock is a kapacitor/clock settable clock set to year 9999 before the replay starts; a 30 s bound is hang detection only (signature replay/hang)",
-	"the files are handed to ReplayBatchFromIO directly (the zip layer of the file data source is transparent and left out)",
+	"the files are handed to ReplayBatchFromIO directly, without the zip archive of the file data source (recording files made and replayed by the service are the subject of unit File)",
 	"a batch whose recorded tmax is unset (zero time: an empty series of 'record query') may be delivered with any tmax (the replay gives it the tmax of the batch before it)",
 	"excluded by construction (known finding replay/batch/per-file-shift, witness under replays/C18): for recTime=false, files of one archive whose first timestamps differ. Empty batches, batches whose tmax differs from their last point time and a clock zero before the data (defects repaired by fix: commits) are generated; VERIF_C18_EXCLUDE=empty,tmax excludes them again",
 }
